@@ -28,9 +28,10 @@ Definition p_tset (listing : list path) : tset := mk_tset g_template_suffix list
 Definition class_names_index_ok : bool :=
   negb (match g_template_suffix with [] => true | _ => false end) &&
   forallb (fun e => let n := fst (snd e) in
-                    str_eqb (py_stem (n ++ g_template_suffix)) n && str_eqb (py_suffix (n ++ g_template_suffix)) g_template_suffix) g_classes.
+                    str_eqb (py_stem (n ++ g_template_suffix)) n && str_eqb (py_suffix (n ++ g_template_suffix)) g_template_suffix
+                    && str_eqb (basename (n ++ g_template_suffix)) (n ++ g_template_suffix)) g_classes.
 
-Definition g_builtin_templates : list (str * tset) := map (fun e => (fst e, p_tset (snd e))) g_builtin_listings.
+Definition g_builtin_templates : list (str * tset) := map (fun e => (fst e, p_tset (list_templates (snd e)))) g_builtin_listings.
 
 (* built-in template sets are antichains of the ancestor relation (no template for a class and for one of its proper ancestors) *)
 Definition proper_ancestors (c : cls) : list cls := tl (chain_n p_bases p_fuel c).
@@ -64,16 +65,55 @@ Definition p_test (q_dt_only : bool) (name : str) (v : value) : option bool :=
 Definition p_test_spec (name : str) (v : value) : option bool :=
   match aget p_tests name with Some root => Some (spec_test p_bases p_fuel g_cls_Attribute root v) | None => None end.
 
-(* loader: raw listings -> results of a sequence of type_to_template calls (and what get_source then loads) *)
-Definition p_index (o : option (list path)) : option (cls -> option path) := option_map (fun l => tmap p_name (p_tset l)) o.
-Definition p_lookup_seq (q_shared : bool) (pol : policy) (dirs pkg : option (list path)) (cs : list cls) : list (option path) :=
+(* loader: user search paths (raw, unsorted walk results, in the order of templates_dirs) and the package's raw listing ->
+   results of a sequence of type_to_template calls, and the file get_source then loads for filter_type_to_template's name *)
+Definition p_idx (raw : list path) : cls -> option path := tmap p_name (p_tset (list_templates raw)).
+Definition p_index_fs (o : option (list (list path))) : option (cls -> option path) := option_map (fun rs => p_idx (fs_raw rs)) o.
+Definition p_index_pkg (o : option (list path)) : option (cls -> option path) := option_map p_idx o.
+Definition p_lookup_seq (q_shared : bool) (pol : policy) (dirs : option (list (list path))) (pkg : option (list path)) (cs : list cls)
+  : list (option path) :=
   let '(fs, pk) := mk_loaders pol dirs pkg in
-  run_seq p_bases q_shared (p_index fs) (p_index pk) p_fuel [] cs.
-Definition p_spec_seq (pol : policy) (dirs pkg : option (list path)) (cs : list cls) : list (option path) :=
+  run_seq p_bases q_shared (p_index_fs fs) (p_index_pkg pk) p_fuel [] cs.
+Definition p_spec_seq (pol : policy) (dirs : option (list (list path))) (pkg : option (list path)) (cs : list cls) : list (option path) :=
   let '(fs, pk) := mk_loaders pol dirs pkg in
-  map (fun c => spec_lookup (p_index fs) (p_index pk) (chain_n p_bases p_fuel c)) cs.
-Definition p_get_source (pol : policy) (dirs pkg : option (list path)) (name : path) : option source :=
+  map (fun c => spec_lookup (p_index_fs fs) (p_index_pkg pk) (chain_n p_bases p_fuel c)) cs.
+Definition p_get_source (pol : policy) (dirs : option (list (list path))) (pkg : option (list path)) (name : path) : option origin :=
   let '(fs, pk) := mk_loaders pol dirs pkg in get_source fs pk name.
+
+(* what _generate_type does with the result: template_name = filter_type_to_template(T) = path.name; env.get_template(template_name) *)
+Inductive outcome := Rendered (o : origin) (name : path) | NoTemplate | NotFound (name : path).
+Definition p_outcome (pol : policy) (dirs : option (list (list path))) (pkg : option (list path)) (r : option path) : outcome :=
+  match r with
+  | None => NoTemplate
+  | Some p => match p_get_source pol dirs pkg (basename p) with Some o => Rendered o (basename p) | None => NotFound (basename p) end
+  end.
+Definition p_rendered_seq (q_shared : bool) (pol : policy) (dirs : option (list (list path))) (pkg : option (list path)) (cs : list cls)
+  : list outcome := map (p_outcome pol dirs pkg) (p_lookup_seq q_shared pol dirs pkg cs).
+
+(* the property: the most specific class of the chain for which a file named exactly <Class><suffix> exists in ANY root of the
+   loader chain; the file rendered is the one in the first root that has it *)
+Definition p_exact_name (k : cls) : path := p_name k ++ g_template_suffix.
+Fixpoint spec_rendered_chain (pol : policy) (dirs : option (list (list path))) (pkg : option (list path)) (l : list cls) : outcome :=
+  match l with
+  | [] => NoTemplate
+  | k :: l' => match p_get_source pol dirs pkg (p_exact_name k) with
+               | Some o => Rendered o (p_exact_name k)
+               | None => spec_rendered_chain pol dirs pkg l'
+               end
+  end.
+Definition p_spec_rendered (pol : policy) (dirs : option (list (list path))) (pkg : option (list path)) (c : cls) : outcome :=
+  spec_rendered_chain pol dirs pkg (chain_n p_bases p_fuel c).
+
+(* trigger predicates of the two deviations *)
+Definition flatb (l : list path) : bool :=
+  forallb (fun p => negb (str_eqb (py_suffix (basename p)) g_template_suffix) || str_eqb (basename p) p) l.
+Definition p_flatb (pol : policy) (dirs : option (list (list path))) (pkg : option (list path)) : bool :=
+  let '(fs, pk) := mk_loaders pol dirs pkg in
+  match fs with Some rs => forallb flatb rs | None => true end && match pk with Some l => flatb l | None => true end.
+Definition p_shadow_freeb (pol : policy) (dirs : option (list (list path))) (pkg : option (list path)) (c : cls) : bool :=
+  let '(fs, pk) := mk_loaders pol dirs pkg in
+  shadow_freeb (match p_index_fs fs with Some T => T | None => fun _ => None end)
+               (match p_index_pkg pk with Some T => T | None => fun _ => None end) (chain_n p_bases p_fuel c).
 
 (* environment *)
 Definition p_reserved : list str := g_gate_reserved.
